@@ -670,7 +670,7 @@ func c10DiffClass(kind, class, in, got string) string {
 }
 
 // ppcCanonicalPair reports whether a 0xM literal of 32 digits is a canonical
-// ppc_fp128 pair: finite, high = the double nearest to the sum of the two, low
+// ppc_fp128 pair: an infinity with low +0.0, or finite with high = the double nearest to the sum of the two, low
 // the remainder and not -0.0 (zero high only with zero low).
 func ppcCanonicalPair(lit string) bool {
 	if len(lit) != 35 || !strings.HasPrefix(lit, "0xM") {
@@ -682,6 +682,10 @@ func ppcCanonicalPair(lit string) bool {
 		return false
 	}
 	hi, lo := math.Float64frombits(hb), math.Float64frombits(lb)
+	if math.IsInf(hi, 0) {
+		// an infinity with a +0.0 low double is the canonical pair of that infinity
+		return lb == 0
+	}
 	if math.IsInf(hi, 0) || math.IsNaN(hi) || math.IsInf(lo, 0) || math.IsNaN(lo) || lb == 1<<63 || (hi == 0 && lb != 0) {
 		return false
 	}
